@@ -317,6 +317,13 @@ example : (SweepReq.delayed ⟨2, 102, 1, 7, [⟨some true, .no⟩, ⟨some fals
 example : (SweepReq.delayed ⟨2, 102, 1, 7, [⟨some true, .no⟩, ⟨some false, .no⟩]⟩ 0 true 100 7).sign true = .errPolicy
     ∧ (SweepReq.delayed ⟨2, 103, 1, 7, [⟨some true, .no⟩]⟩ 0 true 100 7).sign true = .errFormat := by decide
 
+/-- `input[0].sequence` must equal the contest delay on all 32 bits: the delay with the BIP68 disable flag
+    (0x80000007), the time-units flag (0x00400007) or the high half set (0xffff0007) is refused
+    (`C09_sweep` states `tx.seq0 = d` for the full value, not for its low 16 bits) -/
+example : (SweepReq.delayed ⟨2, 0, 1, 2147483655, [⟨some true, .no⟩]⟩ 0 true 100 7).sign true = .errFormat
+    ∧ (SweepReq.delayed ⟨2, 0, 1, 4194311, [⟨some true, .no⟩]⟩ 0 true 100 7).sign true = .errFormat
+    ∧ (SweepReq.delayed ⟨2, 0, 1, 4294901767, [⟨some true, .no⟩]⟩ 0 true 100 7).sign true = .errFormat := by decide
+
 /-- the time-domain value 500_000_000 passes the height check (it is in the past), 500_000_001 does not -/
 example : (SweepReq.justice ⟨2, 500000000, 1, 0, [⟨some true, .no⟩]⟩ 0 100).sign true = .ok
     ∧ (SweepReq.justice ⟨2, 500000001, 1, 0, [⟨some true, .no⟩]⟩ 0 100).sign true = .errFormat := by decide
